@@ -44,7 +44,29 @@ def jobs(tier):
                      opaque=('opensmt::STPSolver<opensmt::%s>' % T, 'opensmt::ArithLogic', 'opensmt::Logic', 'opensmt::Pterm'),
                      unwindset=('gcd__uint_uint.0:3',), default_unwind=3, expected_wrap=C15.WRAP, min_obligations=10, timeout=900,
                      proves='difference-logic atoms are parsed into the right variables; every other linear atom is rejected; no term is indexed past its size'))
-    return J
+    return J + jobs_numterm()
+H_NUMTERM = '''void harness(void) {
+  /* node 1 is the term; nodes 2..4 are its (up to three) arguments: leaves of arbitrary kind */
+  g_arena[0].kind = 99; g_arena[0].nargs = 0;
+  for (int k = 2; k <= 4; k++) { t_uchar kd = nondet_uchar(); __CPROVER_assume(kd == K_VAR || kd == K_CONST || kd == K_UF); g_arena[k].kind = kd; g_arena[k].nargs = (kd == K_UF) ? 1 : 0; g_arena[k].args[0] = 5; }
+  g_arena[5].kind = K_VAR; g_arena[5].nargs = 0;
+  t_uchar kd = nondet_uchar(); __CPROVER_assume(kd == K_VAR || kd == K_CONST || kd == K_UF || kd == K_TIMES || kd == K_PLUS);
+  t_int na = (kd == K_VAR || kd == K_CONST) ? 0 : (kd == K_UF ? 1 : (nondet_bool() ? 2 : 3));
+  g_arena[1].kind = kd; g_arena[1].nargs = na; g_arena[1].args[0] = 2; g_arena[1].args[1] = 3; g_arena[1].args[2] = 4;
+  struct PTRef tr; tr.x = 1;
+  t_bool r = ArithLogic__isNumTerm((struct ArithLogic *)0, tr);
+  t_bool vl2 = g_arena[2].kind != K_CONST, vl3 = g_arena[3].kind != K_CONST;
+  t_bool linear = (kd == K_VAR || kd == K_UF || kd == K_CONST) || (kd == K_TIMES && na == 2 && ((vl2 && !vl3) || (vl3 && !vl2)));
+  __CPROVER_assert(r == linear, "isNumTerm(t) <=> t is a variable-like term, a constant, or constant * variable-like with exactly two factors");
+  OSMT_REACH("return");
+}
+'''
+def jobs_numterm():
+    return [Job('isNumTerm.R', 'src/logics/ArithLogic.cc', 'opensmt::ArithLogic::isNumTerm', tier='R', header='contracts/C29/numterm.h', harness=H_NUMTERM, enforce=False, pre_includes=(),
+                stubs=('Pterm__op_index', 'Pterm__size', 'ArithLogic__isNumVarLike__PTRef', 'Logic__isConstant__PTRef', 'ArithLogic__isTimes__PTRef', 'ArithLogic__isNumVar__PTRef',
+                       'Logic__getPterm__PTRef', 'Logic__getPterm__PTRef_65755a'), opaque=('opensmt::ArithLogic', 'opensmt::Logic', 'opensmt::Pterm'), default_unwind=5, min_obligations=3,
+                proves='the linearity test accepts exactly variables, constants and constant*variable with two factors (products of three or more factors are non-linear)')]
+
 def info(tier, results):
     return {'level': 'proof', 'trusted_base': ['clang 14 AST', 'osmt2c lowering', 'CBMC 6.11'],
             'assumptions': ['the Logic / Pterm API behaves as the arena stubs (contracts/C29/parse.h)', 'atoms handed to declareAtom are in ArithLogic normal form: constant on the left; on the right a variable, constant*variable, or a sum of 2..3 such summands'], 'explanation': ''}
